@@ -607,8 +607,10 @@ class AlgebraProfile(FieldProfile):
             o = {"op": "A.binary", "a": a, "b": b, "f": f, "out": out}
             if f == "pow":
                 o["b"] = {"num": rng.choice([2, 3, 0, 1, -1, 0.5, -1.0, -2.0, 2.0])}
-            if not isinstance(o["b"], int) and rng.random() < 0.4 and f != "pow":
-                o["reflected"] = True
+            if not isinstance(o["b"], int) and rng.random() < 0.4:
+                o["reflected"] = True  # number (op) field - also 2 ** f
+                if f == "pow":
+                    o["b"] = {"num": rng.choice([2, 3, 0.5, 1, 2.0])}
             return o
         if r < 0.62:
             f = rng.choice(["dot", "cross", "angle"])
@@ -702,7 +704,7 @@ class ValidityProfile(FieldProfile):
                 return {"op": "V.poke", "on": a, "i": rng.randrange(10**6)}
             how = rng.choice([
                 {"t": "array", "a": {"kind": "mask", "seed": rng.randrange(2**31), "p": rng.choice([0.3, 0.7])}, "as": rng.choice(["bool", "bool", "int", "list"])},
-                {"t": "const", "v": rng.choice([True, False])},
+                {"t": "const", "v": rng.choice([True, False]), "np": rng.random() < 0.4},
                 {"t": "fn", "a": {"kind": "mask", "seed": rng.randrange(2**31), "p": 0.5}},
                 {"t": "norm"},
             ])
